@@ -303,6 +303,7 @@ def t4_filter_tables(prog):
     component's own identifier bit (found here) or delegate to the tail; Option<_>, identifier, the
     empty view list and None are true; And / Or / Not / lists combine both operands as &&, ||, !, &&."""
     r = Result()
+    S = pathsem.strip_refs
     for imp in prog.facts['impls']:
         if not imp['trait'] or imp['trait']['path'] not in FILTER_TRAITS:
             continue
@@ -316,18 +317,70 @@ def t4_filter_tables(prog):
         fk = filter_kind(F)
         which = 'registry' if imp['trait']['path'].startswith('registry') else 'views'
         key = 'filter[%s; %s; idx=%s; self=%s]' % (which, ty_str(F), ty_str(idx), ty_str(imp['self']))
-        bf, tt = boolfn.bool_table(prog, f)
-        if tt is None or fk is None:
+        E = pathsem.analyse(prog, f)
+        rets = [p for p in E.paths if p.ended == 'return']
+        if E.truncated or not rets or fk is None:
             r.viol('T4', key + '/not-extractable', f.loc(), 'cannot tabulate this filter cell')
             continue
-        keys, table = tt
-        atoms = [bf.atoms[k] for k in keys]
-        r.inst('%s: %d atoms' % (key, len(keys)))
-        calls = [a for a in atoms if a.kind == 'call' and a.term['f']['name'] == 'filter']
-        bits = [a for a in atoms if a.kind == 'call' and a.term['f']['name'] == 'get_unchecked']
-        if len(calls) + len(bits) != len(atoms):
-            r.viol('T4', key + '/foreign-atom', f.loc(), 'filter result depends on something other than identifier bits and sub-filters: %s' % [a.desc[:50] for a in atoms])
+        # atoms: sub-filter verdicts and identifier bits, named by what they ask (not where)
+        atoms = {}          # atom key -> representative event
+        term_key = {}
+
+        def atom_of(e):
+            if e['name'] == 'filter' and e['path'].rsplit('::', 1)[0] in FILTER_TRAITS:
+                return ('filter', e['path'], e['gargs'], tuple(S(x) for x in e['args']))
+            if e['name'] == 'get_unchecked' and 'IdentifierRef' in e['path']:
+                return ('bit', tuple(S(x) for x in e['args']))
+            return None
+        for p in rets:
+            for e in p.calls(lambda e: True):
+                k_ = atom_of(e)
+                if k_ is not None and e.get('ret') is not None:
+                    atoms.setdefault(k_, e)
+                    term_key[e['ret']] = k_
+        keys = list(atoms)
+        foreign = []
+        rows = []
+        for p in rets:
+            asg = {}
+            feasible = True
+            for a_, v in p.conds:
+                core, val = a_, v
+                while isinstance(core, tuple) and core[0] == 'un' and core[1] == 'Not':
+                    core, val = core[2], (not val)
+                if core in term_key and isinstance(val, bool):
+                    if asg.setdefault(term_key[core], val) != val:
+                        feasible = False
+                else:
+                    foreign.append(pathsem.tstr(a_)[:60])
+            if feasible:
+                rows.append((asg, p.ret))
+        if foreign:
+            r.viol('T4', key + '/foreign-atom', f.loc(), 'filter result depends on something other than identifier bits and sub-filters: %s' % foreign[:3])
             continue
+        table = {}
+        okay = True
+        for bits_ in range(1 << len(keys)):
+            vals = tuple(bool(bits_ >> i & 1) for i in range(len(keys)))
+            env = dict(zip(keys, vals))
+            res = set()
+            for asg, ret in rows:
+                if all(env[k_] == v for k_, v in asg.items()):
+                    rv = pathsem.evaluate(ret, lambda t: (int(env[term_key[t]]) if t in term_key else None))
+                    res.add(None if rv is None else bool(rv))
+            if len(res) != 1 or None in res:
+                okay = False
+                break
+            table[vals] = res.pop()
+        if not okay:
+            r.viol('T4', key + '/not-extractable', f.loc(), 'cannot tabulate this filter cell')
+            continue
+        r.inst('%s: %d atoms' % (key, len(keys)))
+        calls = [atoms[k_] for k_ in keys if k_[0] == 'filter']
+        bits = [atoms[k_] for k_ in keys if k_[0] == 'bit']
+
+        def gty(e):
+            return [json.loads(g) for g in e['gargs'] if json.loads(g).get('k') != 'region']
 
         def expect(fn_):
             for vals, res in table.items():
@@ -335,7 +388,7 @@ def t4_filter_tables(prog):
                     return False
             return True
         if fk[0] == 'true' or fk[0] == 'none':
-            if not (len(atoms) == 0 and table.get(()) is True):
+            if not (len(keys) == 0 and table.get(()) is True):
                 r.viol('T4', key + '/not-true', f.loc(), 'this filter must accept every archetype (constant true)')
         elif fk[0] == 'has':
             found_here = idx is not None and idx.get('k') == 'adt'     # Contained / index::Index marker
@@ -348,54 +401,53 @@ def t4_filter_tables(prog):
                 if not (len(calls) == 1 and len(bits) == 0 and expect(lambda v: v[0])):
                     r.viol('T4', key + '/not-delegating', f.loc(), 'presence filter for a component further down must be exactly the tail\'s verdict')
                 else:
-                    g = calls[0].term['f']['args']
+                    g = gty(calls[0])
                     tailp = imp['self']['e'][1] if imp['self'].get('k') == 'tuple' else None
                     if tailp is not None and not ty_eq(g[0], tailp):
                         r.viol('T4', key + '/delegates-to-self', f.loc(), 'delegation must go to the tail list')
         elif fk[0] in ('and', 'or', 'list'):
+            want = [ty_str(a) for a in (F['args'] if F.get('k') == 'adt' else F['e']) if a.get('k') != 'region']
             if len(calls) == 1 and fk[0] == 'list':
                 # (F, FS) implemented through And<F, FS>
-                g = [a for a in calls[0].term['f']['args'] if a.get('k') != 'region']
-                if not (expect(lambda v: v[0]) and any(is_adt(x, 'query::filter::And') for x in g)):
+                g = gty(calls[0])
+                if not (expect(lambda v: v[0]) and any(is_adt(x, 'query::filter::And') and [ty_str(a) for a in x['args'] if a.get('k') != 'region'] == want for x in g)):
                     r.viol('T4', key + '/list-not-and', f.loc(), 'a filter list must be the conjunction of its elements')
-            elif len(calls) != 2:
+            elif len(calls) != 2 or bits:
                 r.viol('T4', key + '/operands', f.loc(), 'binary filter must consult both operands')
             else:
                 op = (lambda v: v[0] and v[1]) if fk[0] in ('and', 'list') else (lambda v: v[0] or v[1])
                 if not expect(op):
                     r.viol('T4', key + '/wrong-connective', f.loc(), '%s filter does not compute %s of its operands' % (fk[0], '&&' if fk[0] != 'or' else '||'))
-                fa = set()
-                for c in calls:
-                    fa.add(ty_str([a for a in c.term['f']['args'] if a.get('k') != 'region'][1]))
-                want = {ty_str(a) for a in (F['args'] if F.get('k') == 'adt' else F['e']) if a.get('k') != 'region'}
-                if fa != want:
+                fa = {ty_str(gty(c)[1]) for c in calls}
+                if fa != set(want):
                     r.viol('T4', key + '/wrong-operands', f.loc(), 'binary filter consults %s instead of its two operands %s' % (sorted(fa), sorted(want)))
         elif fk[0] == 'not':
-            if not (len(calls) == 1 and expect(lambda v: not v[0])):
+            if not (len(calls) == 1 and not bits and expect(lambda v: not v[0])):
                 r.viol('T4', key + '/not-negation', f.loc(), 'Not filter must negate its operand')
+            elif ty_str(gty(calls[0])[1]) != ty_str([a for a in F['args'] if a.get('k') != 'region'][0]):
+                r.viol('T4', key + '/wrong-operands', f.loc(), 'Not filter negates something other than its operand')
     return r
 
 
-def check_bit_index(prog, r, f, imp, atom, key, which):
+def check_bit_index(prog, r, f, imp, ev, key, which):
     """The identifier bit tested is this component's own index."""
-    t = atom.term
-    body = f.body
-    se = SymEval(prog, body)
-    idx = se.operand(t['args'][1], (atom.pos, None))
+    ix = pathsem.strip_refs(ev['args'][1])
     if which == 'registry':
         # LEN<R_> - LEN<R> - 1 with R the tail of (C, R) and R_ the identifier's registry
         tail = imp['self']['e'][1]['name']
-        terms = idx.terms if idx is not None else {}
-        pos = [k for k, v in terms.items() if v == 1]
-        neg = [k for k, v in terms.items() if v == -1]
-        ok = idx is not None and idx.const == -1 and len(pos) == 1 and len(neg) == 1 and neg[0] == 'LEN<%s>' % tail and pos[0].startswith('LEN<') and pos[0] != neg[0]
+        idx = pathsem.lin(ix)
+        terms = {pathsem.tstr(k_): v for k_, v in idx.terms.items()} if idx is not None else {}
+        pos = [k_ for k_, v in terms.items() if v == 1]
+        neg = [k_ for k_, v in terms.items() if v == -1]
+        ok = idx is not None and idx.const == -1 and len(terms) == 2 and len(pos) == 1 and len(neg) == 1 and neg[0].endswith('LEN<%s>' % tail) and 'LEN<' in pos[0] and pos[0] != neg[0]
         if not ok:
-            r.viol('T4', key + '/wrong-bit-index', f.loc(t['ln']), 'identifier bit index is %s, expected LEN(registry) - LEN(tail) - 1 (the position of this component)' % idx)
+            r.viol('T4', key + '/wrong-bit-index', f.loc(ev['ln']), 'identifier bit index is %s, expected LEN(registry) - LEN(tail) - 1 (the position of this component)' % pathsem.tstr(ix))
     else:
         # views table: indices.0 (the index list entry of this view)
-        nm = receiver_name(prog, body, t['args'][1])
-        if not (nm and (nm.endswith('indices.0') or nm.endswith('.0'))):
-            r.viol('T4', key + '/wrong-bit-index', f.loc(t['ln']), 'identifier bit index is not this view\'s own index entry (got %s)' % nm)
+        while isinstance(ix, tuple) and ix[0] == 'd':
+            ix = pathsem.strip_refs(ix[1])
+        if not (isinstance(ix, tuple) and ix[0] == 'f' and ix[2] == 0 and pathsem.strip_refs(ix[1])[0] in ('p', 'd')):
+            r.viol('T4', key + '/wrong-bit-index', f.loc(ev['ln']), 'identifier bit index is not this view\'s own index entry (got %s)' % pathsem.tstr(ix))
 
 
 @rule('G7', props=['C03', 'C05', 'C09'], floor={'all': 5, 'default': 4}, configs=('all', 'default'))
